@@ -58,9 +58,56 @@ def Mem.write (m : Mem) (a : Nat) : List Byte → Mem
   | [] => m
   | b :: bs => (m.set a b).write (a + 1) bs
 
+theorem Mem.write_apply (m : Mem) (a : Nat) (bs : List Byte) (x : Nat) :
+    (m.write a bs) x = if h : a ≤ x ∧ x < a + bs.length then bs[x - a]'(by omega) else m x := by
+  induction bs generalizing m a with
+  | nil =>
+    have : ¬ (a ≤ x ∧ x < a + ([] : List Byte).length) := by simp
+    rw [dif_neg this]; rfl
+  | cons b bs ih =>
+    rw [Mem.write, ih]
+    by_cases h1 : x = a
+    · subst h1
+      have : ¬ (x + 1 ≤ x ∧ x < x + 1 + bs.length) := by omega
+      simp [this, Mem.set]
+    · by_cases h2 : a + 1 ≤ x ∧ x < a + 1 + bs.length
+      · have h3 : a ≤ x ∧ x < a + (b :: bs).length := by simp; omega
+        rw [dif_pos h2, dif_pos h3]
+        have : x - a = (x - (a + 1)) + 1 := by omega
+        simp [this]
+      · have h3 : ¬ (a ≤ x ∧ x < a + (b :: bs).length) := by simp; omega
+        rw [dif_neg h2, dif_neg h3]
+        simp [Mem.set, h1]
+
+/-- Closed form of `Mem.write` (one bounds test and one list lookup per read instead of one
+    closure per byte); proved equal and used by compiled code (the driver). -/
+def Mem.writeFast (m : Mem) (a : Nat) (bs : List Byte) : Mem :=
+  fun x => if a ≤ x then (match bs[x - a]? with | some b => b | none => m x) else m x
+
+@[csimp] theorem Mem.write_eq_writeFast : @Mem.write = @Mem.writeFast := by
+  funext m a bs x
+  rw [Mem.write_apply]
+  unfold Mem.writeFast
+  by_cases h : a ≤ x ∧ x < a + bs.length
+  · rw [dif_pos h, if_pos h.1, List.getElem?_eq_getElem (by omega)]
+  · rw [dif_neg h]
+    by_cases h1 : a ≤ x
+    · rw [if_pos h1, List.getElem?_eq_none (by omega)]
+    · rw [if_neg h1]
+
 /-- Read `n` consecutive bytes. -/
 def Mem.read (m : Mem) (a : Nat) : Nat → List Byte
   | 0 => []
   | n + 1 => m a :: Mem.read m (a + 1) n
+
+/-- bytes of `x`, most significant first (`k` bytes). -/
+def bytesBE : Nat → Nat → List Byte
+  | 0, _ => []
+  | k + 1, x => Fin.ofNat 256 (x / 256 ^ k) :: bytesBE k x
+
+/-- bytes of `x`, least significant first (`k` bytes). -/
+def bytesLE : Nat → Nat → List Byte
+  | 0, _ => []
+  | k + 1, x => Fin.ofNat 256 x :: bytesLE k (x / 256)
 
 end O1722
